@@ -187,6 +187,9 @@ func nativeValidate(rp *replayer, rep *RunReport, fresh []*Candidate, property s
 		} else {
 			for k, r := range res {
 				s := rep.Agg.Samples[k]
+				if strings.HasPrefix(r.Status, "assumed-away") {
+					continue // the harness declares this case not reproducible natively
+				}
 				if r.Status != "ok" {
 					rep.ValidMism = append(rep.ValidMism, fmt.Sprintf("passing path (trace %q) ended natively with status %s %v %s", s.Trace, r.Status, r.Fails, r.PanicMsg))
 					if verbose {
